@@ -641,3 +641,312 @@ Proof.
   - intros H H'. rewrite (dtype_spec s ms I H), (dtype_spec s' ms' I' H'). rewrite Hnalt.
     f_equal; now apply forallb_set_ext.
 Qed.
+
+(* ------------------------------------------------------------------------------------------ *)
+(** * data_type against is_strict / is_complete / the ballot-size statistics *)
+
+Lemma dedup_in l x : In x (dedup l) <-> In x l.
+Proof.
+  induction l as [|a l IH]; simpl; [tauto|].
+  destruct (existsb (N.eqb a) l) eqn:E.
+  - rewrite IH. split; [tauto|]. intros [<-|H]; [|assumption].
+    apply existsb_exists in E. destruct E as [y [Hy Ey]]. apply N.eqb_eq in Ey. now subst.
+  - simpl. rewrite IH. tauto.
+Qed.
+
+Lemma dedup_nodup l : NoDup (dedup l).
+Proof.
+  induction l as [|a l IH]; simpl; [constructor|].
+  destruct (existsb (N.eqb a) l) eqn:E; [assumption|].
+  constructor; [|assumption]. rewrite dedup_in. intro H.
+  assert (X : existsb (N.eqb a) l = true).
+  { apply existsb_exists. exists a. split; [assumption | apply N.eqb_refl]. }
+  congruence.
+Qed.
+
+Lemma dedup_id l : NoDup l -> dedup l = l.
+Proof.
+  induction 1 as [|x l Hnin Hn IH]; simpl; [reflexivity|].
+  destruct (existsb (N.eqb x) l) eqn:E.
+  - apply existsb_exists in E. destruct E as [y [Hy Ey]]. apply N.eqb_eq in Ey. subst. contradiction.
+  - now rewrite IH.
+Qed.
+
+Lemma bool_iff (a b : bool) : (a = true <-> b = true) -> a = b.
+Proof. destruct a, b; intros [H1 H2]; try reflexivity; [symmetry; now apply H1 | now apply H2]. Qed.
+
+Lemma list_max0_le l n : list_max0 l <= n <-> forall x, In x l -> x <= n.
+Proof.
+  unfold list_max0. induction l as [|a l IH]; simpl.
+  - split; [intros _ x [] | lia].
+  - rewrite Nat.max_lub_iff, IH. split.
+    + intros [H1 H2] x [<-|Hx]; auto.
+    + intro H. split; [apply H; now left | intros x Hx; apply H; now right].
+Qed.
+
+Lemma list_max0_ge l x : In x l -> x <= list_max0 l.
+Proof. intro H. now apply (proj1 (list_max0_le l (list_max0 l)) (Nat.le_refl _)). Qed.
+
+Lemma max_eq1 l :
+  l <> [] -> (forall x, In x l -> 1 <= x) -> (list_max0 l = 1 <-> forall x, In x l -> x = 1).
+Proof.
+  intros Hne Hge. split.
+  - intros E x Hx. pose proof (list_max0_ge l x Hx). pose proof (Hge x Hx). lia.
+  - intro H. assert (Hle : list_max0 l <= 1).
+    { apply list_max0_le. intros x Hx. rewrite (H x Hx). lia. }
+    destruct l as [|y l]; [contradiction|].
+    pose proof (list_max0_ge (y :: l) y (or_introl eq_refl)) as G.
+    pose proof (H y (or_introl eq_refl)) as Ey. lia.
+Qed.
+
+Lemma fold_max_base x r : fold_right Nat.max x r = Nat.max x (fold_right Nat.max 0 r).
+Proof. induction r as [|a r IH]; simpl; lia. Qed.
+
+Lemma fold_min_base x y r : fold_right Nat.min (Nat.min x y) r = Nat.min y (fold_right Nat.min x r).
+Proof. induction r as [|a r IH]; simpl; lia. Qed.
+
+Lemma max_tail0 l : get 0 (list_max_r (l ++ [0])) = list_max0 l.
+Proof.
+  destruct l as [|x r]; [reflexivity|]. simpl. rewrite fold_right_app. simpl.
+  apply fold_max_base.
+Qed.
+
+Lemma fold_min_spec x r :
+  In (fold_right Nat.min x r) (x :: r) /\ forall y, In y (x :: r) -> fold_right Nat.min x r <= y.
+Proof.
+  induction r as [|a r [IH1 IH2]]; simpl.
+  - split; [now left | intros y [<-|[]]; lia].
+  - split.
+    + destruct (Nat.min_spec a (fold_right Nat.min x r)) as [[_ E]|[_ E]]; rewrite E.
+      * right. now left.
+      * destruct IH1 as [H|H]; [now left | right; now right].
+    + intros y [<-|[<-|Hy]].
+      * pose proof (IH2 x (or_introl eq_refl)). lia.
+      * lia.
+      * pose proof (IH2 y (or_intror Hy)). lia.
+Qed.
+
+Lemma fold_max_spec x r :
+  In (fold_right Nat.max x r) (x :: r) /\ forall y, In y (x :: r) -> y <= fold_right Nat.max x r.
+Proof.
+  induction r as [|a r [IH1 IH2]]; simpl.
+  - split; [now left | intros y [<-|[]]; lia].
+  - split.
+    + destruct (Nat.max_spec a (fold_right Nat.max x r)) as [[_ E]|[_ E]]; rewrite E.
+      * destruct IH1 as [H|H]; [now left | right; now right].
+      * right. now left.
+    + intros y [<-|[<-|Hy]].
+      * pose proof (IH2 x (or_introl eq_refl)). lia.
+      * lia.
+      * pose proof (IH2 y (or_intror Hy)). lia.
+Qed.
+
+Lemma filter_all {T} (f : T -> bool) l : (forall x, In x l -> f x = true) -> filter f l = l.
+Proof.
+  induction l as [|a l IH]; simpl; intro H; [reflexivity|].
+  rewrite (H a (or_introl eq_refl)). f_equal. apply IH. intros x Hx. apply H. now right.
+Qed.
+
+Lemma nonempty_in {T} (l : list T) : l <> [] -> exists x, In x l.
+Proof. destruct l as [|x l]; [contradiction|]. intros _. exists x. now left. Qed.
+
+Lemma in_nonempty {T} (l : list T) x : In x l -> l <> [].
+Proof. destruct l; [contradiction | discriminate]. Qed.
+
+Section TypeAgreement.
+  Variables (s : state) (ms : list order).
+  Hypothesis I : Inv s ms.
+
+  Lemma TA_tbl : tbl (ords s) (mult s) ms.
+  Proof. exact (inv_tbl _ _ I). Qed.
+  Lemma TA_wf : Forall wf_vote ms.
+  Proof. exact (inv_wf _ _ I). Qed.
+
+  Lemma ords_wf o : In o (ords s) -> wf_vote o.
+  Proof.
+    intro Ho. apply (tbl_in _ _ _ o TA_tbl) in Ho. pose proof TA_wf as W'.
+    rewrite Forall_forall in W'. now apply W'.
+  Qed.
+
+  Lemma ballot_incl o : In o (ords s) -> incl (concat o) (map fst (alts s)).
+  Proof.
+    intros Ho a Ha. destruct (inv_alts _ _ I) as (_ & B & _). apply B. apply in_cc.
+    exists o. split; [now apply (tbl_in _ _ _ o TA_tbl) | assumption].
+  Qed.
+
+  Lemma ballot_le o : In o (ords s) -> (N.of_nat (ballot_size o) <= n_alt s)%N.
+  Proof.
+    intro Ho. destruct (ords_wf o Ho) as (_ & _ & Hn).
+    pose proof (NoDup_incl_length Hn (ballot_incl o Ho)) as L.
+    rewrite map_length in L. rewrite (inv_nalt _ _ I). unfold ballot_size. lia.
+  Qed.
+
+  (** strictness: three equivalent readings *)
+  Definition all_singletons (os : list order) : Prop :=
+    forall o c, In o os -> In c o -> length c = 1.
+
+  Lemma strict_o_iff o : wf_vote o -> (strict_o o = true <-> forall c, In c o -> length c = 1).
+  Proof.
+    intros (Hne & Hc & _). unfold strict_o, max_class_len. rewrite Nat.eqb_eq.
+    change (fold_right Nat.max 0 (map (@length N) o)) with (list_max0 (map (@length N) o)).
+    rewrite max_eq1.
+    - split.
+      + intros H c Hin. apply H. now apply in_map.
+      + intros H x Hx. apply in_map_iff in Hx. destruct Hx as [c [<- Hin]]. now apply H.
+    - destruct o; [contradiction | discriminate].
+    - intros x Hx. apply in_map_iff in Hx. destruct Hx as [c [<- Hin]].
+      rewrite Forall_forall in Hc. specialize (Hc c Hin). destruct c; [contradiction | simpl; lia].
+  Qed.
+
+  Lemma forallb_strict_iff : forallb strict_o (ords s) = true <-> all_singletons (ords s).
+  Proof.
+    rewrite forallb_forall. unfold all_singletons. split.
+    - intros H o c Ho. now apply (strict_o_iff o (ords_wf o Ho)), H.
+    - intros H o Ho. apply (strict_o_iff o (ords_wf o Ho)). intros c Hc. now apply (H o).
+  Qed.
+
+  Lemma all_singletons_ms : all_singletons (ords s) <-> all_singletons ms.
+  Proof.
+    unfold all_singletons. split; intros H o c Ho; apply H; now apply (tbl_in _ _ _ o TA_tbl).
+  Qed.
+
+  Hypothesis Hne : ms <> [].
+
+  Lemma ords_ne : ords s <> [].
+  Proof.
+    destruct (nonempty_in ms Hne) as [o Ho]. apply (tbl_in _ _ _ o TA_tbl) in Ho.
+    now apply (in_nonempty _ o).
+  Qed.
+
+  Lemma class_sizes_eq : class_sizes s = map (@length N) (concat (ords s)).
+  Proof.
+    unfold class_sizes. apply filter_all. intros x Hx. apply in_map_iff in Hx.
+    destruct Hx as [c [<- Hc]]. apply in_concat in Hc. destruct Hc as [o [Ho Hco]].
+    destruct (ords_wf o Ho) as (_ & Hcl & _). rewrite Forall_forall in Hcl.
+    specialize (Hcl c Hco). destruct c; [contradiction | reflexivity].
+  Qed.
+
+  Lemma is_strict_iff : is_strict s = true <-> all_singletons (ords s).
+  Proof.
+    unfold is_strict, largest_indif. rewrite max_tail0, class_sizes_eq, Nat.eqb_eq.
+    rewrite max_eq1.
+    - unfold all_singletons. split.
+      + intros H o c Ho Hc. apply H. apply in_map. apply in_concat. now exists o.
+      + intros H x Hx. apply in_map_iff in Hx. destruct Hx as [c [<- Hc]].
+        apply in_concat in Hc. destruct Hc as [o [Ho Hco]]. now apply (H o).
+    - destruct (nonempty_in _ ords_ne) as [o Ho].
+      destruct (ords_wf o Ho) as (Hone & _ & _). destruct (nonempty_in o Hone) as [c Hc].
+      apply (in_nonempty _ (length c)). apply in_map. apply in_concat. now exists o.
+    - intros x Hx. apply in_map_iff in Hx. destruct Hx as [c [<- Hc]].
+      apply in_concat in Hc. destruct Hc as [o [Ho Hco]].
+      destruct (ords_wf o Ho) as (_ & Hcl & _). rewrite Forall_forall in Hcl.
+      specialize (Hcl c Hco). destruct c; [contradiction | simpl; lia].
+  Qed.
+
+  Lemma is_strict_eq : is_strict s = forallb strict_o (ords s).
+  Proof. apply bool_iff. now rewrite is_strict_iff, forallb_strict_iff. Qed.
+
+  (** completeness *)
+  Lemma sizes_ne : map ballot_size (ords s) <> [].
+  Proof.
+    destruct (nonempty_in _ ords_ne) as [o Ho]. apply (in_nonempty _ (ballot_size o)). now apply in_map.
+  Qed.
+
+  Lemma smallest_spec :
+    exists m, smallest_ballot s = Ok m /\
+              ((N.of_nat m =? n_alt s)%N = forallb (complete_o (n_alt s)) (ords s)).
+  Proof.
+    unfold smallest_ballot. pose proof sizes_ne as Hs.
+    destruct (map ballot_size (ords s)) as [|x r] eqn:E; [contradiction|]. simpl.
+    exists (fold_right Nat.min x r). split; [reflexivity|].
+    destruct (fold_min_spec x r) as [Hin Hle]. rewrite <- E in Hin, Hle.
+    apply bool_iff. rewrite N.eqb_eq, forallb_forall. split.
+    - intros Hm o Ho. unfold complete_o. apply N.eqb_eq.
+      pose proof (ballot_le o Ho). pose proof (Hle (ballot_size o) (in_map _ _ _ Ho)). lia.
+    - intro H. apply in_map_iff in Hin. destruct Hin as [o [<- Ho]].
+      specialize (H o Ho). unfold complete_o in H. now apply N.eqb_eq in H.
+  Qed.
+
+  Lemma is_complete_eq : is_complete s = Ok (forallb (complete_o (n_alt s)) (ords s)).
+  Proof.
+    destruct smallest_spec as [m [E1 E2]]. unfold is_complete. rewrite E1. simpl. now rewrite E2.
+  Qed.
+
+  Lemma largest_spec : exists k, largest_ballot s = Ok k /\ (N.of_nat k <= n_alt s)%N.
+  Proof.
+    unfold largest_ballot. pose proof sizes_ne as Hs.
+    destruct (map ballot_size (ords s)) as [|x r] eqn:E; [contradiction|]. simpl.
+    exists (fold_right Nat.max x r). split; [reflexivity|].
+    destruct (fold_max_spec x r) as [Hin _]. rewrite <- E in Hin.
+    apply in_map_iff in Hin. destruct Hin as [o [<- Ho]]. now apply ballot_le.
+  Qed.
+
+  Definition all_complete (os : list order) : Prop :=
+    forall o a, In o os -> In a (map fst (alts s)) -> In a (concat o).
+
+  Lemma forallb_complete_iff :
+    forallb (complete_o (n_alt s)) (ords s) = true <-> all_complete ms.
+  Proof.
+    rewrite forallb_forall. unfold all_complete, complete_o. split.
+    - intros H o a Ho Ha. apply (tbl_in _ _ _ o TA_tbl) in Ho. specialize (H o Ho).
+      apply N.eqb_eq in H. destruct (ords_wf o Ho) as (_ & _ & Hn).
+      refine (NoDup_length_incl Hn _ (ballot_incl o Ho) a Ha).
+      rewrite map_length. rewrite (inv_nalt _ _ I) in H. unfold ballot_size in H. lia.
+    - intros H o Ho. apply N.eqb_eq. pose proof (ballot_le o Ho) as L.
+      destruct (inv_alts _ _ I) as (Hn & _ & _).
+      assert (Hi : incl (map fst (alts s)) (concat o)).
+      { intros a Ha. apply (H o a); [now apply (tbl_in _ _ _ o TA_tbl) | assumption]. }
+      pose proof (NoDup_incl_length Hn Hi) as L2. rewrite map_length in L2.
+      rewrite (inv_nalt _ _ I) in *. unfold ballot_size in *. lia.
+  Qed.
+
+  Lemma not_init : infer_type s = Ok (dtype s).
+  Proof.
+    destruct (inv_type _ _ I) as [H|H]; [assumption|]. exfalso.
+    pose proof ords_ne as One. rewrite H in One. now apply One.
+  Qed.
+
+  Lemma n_alt_spec : n_alt s = N.of_nat (length (dedup (concat (concat ms)))).
+  Proof.
+    rewrite (inv_nalt _ _ I), <- (map_length fst (alts s)). f_equal. apply Permutation_length.
+    destruct (inv_alts _ _ I) as (Hn & B & _).
+    apply NoDup_Permutation; [assumption | apply dedup_nodup|].
+    intro a. now rewrite B, dedup_in.
+  Qed.
+
+  Lemma dtype_is_spec_type : dtype s = spec_type ms.
+  Proof.
+    rewrite (dtype_spec s ms I not_init). unfold spec_type. rewrite <- n_alt_spec.
+    f_equal; apply forallb_set_ext; intro o; apply (tbl_in _ _ _ o TA_tbl).
+  Qed.
+
+  Lemma type_agreement :
+    dtype s = spec_type ms /\
+    is_strict s = is_strict_type (dtype s) /\
+    is_complete s = Ok (is_complete_type (dtype s)) /\
+    (largest_indif s = 1 <-> is_strict_type (dtype s) = true) /\
+    (smallest_ballot s = Ok (N.to_nat (n_alt s)) <-> is_complete_type (dtype s) = true) /\
+    (exists k, largest_ballot s = Ok k /\ (N.of_nat k <= n_alt s)%N) /\
+    (is_strict_type (dtype s) = true <-> all_singletons ms) /\
+    (is_complete_type (dtype s) = true <-> all_complete ms) /\
+    dtype s <> DNone.
+  Proof.
+    pose proof (dtype_spec s ms I not_init) as D.
+    assert (S1 : is_strict_type (dtype s) = forallb strict_o (ords s)).
+    { rewrite D. now destruct (forallb strict_o (ords s)), (forallb (complete_o (n_alt s)) (ords s)). }
+    assert (C1 : is_complete_type (dtype s) = forallb (complete_o (n_alt s)) (ords s)).
+    { rewrite D. now destruct (forallb strict_o (ords s)), (forallb (complete_o (n_alt s)) (ords s)). }
+    split; [exact dtype_is_spec_type|].
+    split; [rewrite S1; exact is_strict_eq|].
+    split; [rewrite C1; exact is_complete_eq|].
+    split.
+    { rewrite S1, <- is_strict_eq. unfold is_strict. now rewrite Nat.eqb_eq. }
+    split.
+    { rewrite C1. destruct smallest_spec as [m [E1 E2]]. rewrite E1, <- E2, N.eqb_eq.
+      split; [intro H; injection H as ->; lia | intro H; f_equal; lia]. }
+    split; [exact largest_spec|].
+    split; [rewrite S1, forallb_strict_iff; exact all_singletons_ms|].
+    split; [rewrite C1; exact forallb_complete_iff|].
+    rewrite D. apply type_code_not_none.
+  Qed.
+End TypeAgreement.
